@@ -160,6 +160,12 @@ def run(ctx, case):
                 H.call(a.save, os.path.join(d, "earlier.json"))
                 H.call(a.set_sys_phases, copy.deepcopy(spec["phases"]))
             ctx.count("built", "saved earlier with other phase durations")
+        if rng.random() < 0.3:
+            # the unchanged system was saved a moment ago under ANOTHER file name (a backup copy): every save() call
+            # writes the file it is asked to write
+            with H.quiet():
+                H.call(a.save, os.path.join(d, "backup copy.json"))
+            ctx.count("built", "saved to another file name just before")
         f1 = os.path.join(d, "a.json")
         st, r = H.call(a.save, f1)
         if st != "ok":
